@@ -39,6 +39,7 @@ ASSUMPTIONS = [
 
 OPTS = ["require_protocol", "tld_aware", "allow_spaces_in_path", "only_http_https"]
 STRICT = {"require_protocol": True, "tld_aware": True, "allow_spaces_in_path": False, "only_http_https": True}
+_COLONLESS = re.compile(r"^[a-zA-Z]{1,64}//")
 PROTO = re.compile(r"^[^\W\d_]{0,64}:?//")   # letters of any script: the library's own patterns are case-insensitive, which lets e.g. U+0130 count as 'i' 
 SPECIAL = re.compile(r"^(localhost|(\d{1,3}\.){3}\d{1,3}|\[?[\da-f]*:[\da-f:.]*\]?)$", re.I)
 
@@ -88,6 +89,9 @@ def eval_isurl(case):
             full = s.strip()
             if not PROTO.match(full):
                 full = "http://" + full
+            elif _COLONLESS.match(full):
+                # a protocol written without its colon ('com//host'): the library's patterns accept it as a protocol; give both splitters the colon
+                full = full.replace("//", "://", 1)
             try:
                 host = urlref.split(full)["host"] or ""
             except Exception:
@@ -179,7 +183,9 @@ NEAR = ["http://example.zzzz/unsubscribe?email=bob@example.com", "https://blog.z
         "http://.com", "http:///x", "http://a.com/x\ny", "http://a.com/\tx", "http://a.com?x y", "http://a.com#x y", "http://a.com /x",
         "mailto:x@a.com", "javascript://a.com/%0Aalert(1)", "http://a.com/é", "http://a.c0m", "http://1.com", "http://a.com:0080/",
         "a.com:8080/x y", "ht tp://a.com", "http://a.com/" + "x" * 50, "", " ", "http://", "://a.com", "x//a.com", "http://a.museum",
-        "http://a.co.uk/x", "http://a.unknowntld/x y", "ftp://127.0.0.1/a b", "//localhost/x", "wss://[::1]:80/x"]
+        "http://a.co.uk/x", "http://a.unknowntld/x y", "ftp://127.0.0.1/a b", "//localhost/x", "wss://[::1]:80/x",
+        # a protocol written without its colon, spelling a TLD / a special host, in front of a host with an unknown last label (and of a good one)
+        "com//lemonde.zz", "fr//a.zzzz/x", "info//lemonde.zz:8080/a b", "localhost//lemonde.zz", "com//lemonde.fr", "http//lemonde.zz", "https//lemonde.fr/x"]
 
 
 def _isurl_panel(acc, shard, nshards, seed, tier):
